@@ -230,10 +230,17 @@ class ResumeOracle:
         return None
 
 
-def run_history(res, U, triggers, flags, wr, knob_tape=None):
+def run_history(res, U, triggers, flags, wr, knob_tape=None, keep_stale_omn=False):
     """one quit/resume history: triggers for successive cycles, then a final cycle to exhaustion"""
     oracle = ResumeOracle(U, res)
-    clean_sessions(wr)
+    if keep_stale_omn and os.path.exists(os.path.join(wr, "S.omn")):
+        # the session name was used before: its old .omn (another position, maybe another level) is still on the disk
+        stale = open(os.path.join(wr, "S.omn"), "rb").read()
+        clean_sessions(wr)
+        open(os.path.join(wr, "S.omn"), "wb").write(stale)
+        res.faults["stale_omn_from_earlier_session"] += 1
+    else:
+        clean_sessions(wr)
     seg = []
     for cyc, trig in enumerate(list(triggers) + [None]):
         knobs = None
@@ -458,7 +465,7 @@ def run_c15(tape, tier, res):
         histories.append([("omen", m, j)] + tail())
     shapes = []
     for trigs in histories:
-        problem, seg = run_history(res, U, trigs, flags, wr, knob_tape=t)
+        problem, seg = run_history(res, U, trigs, flags, wr, knob_tape=t, keep_stale_omn=t.chance(1, 3))
         res.stats["histories"] += 1
         res.stats["cycles"] += len(seg)
         shapes.append((tuple(trigs), tuple(seg)))
